@@ -76,6 +76,18 @@ type Options struct {
 	ScratchDir        string
 	RecordEvents      bool
 	RecordStores      bool // wrap every node's store with a call recorder (diagnostics)
+	// MonitorPred: at the lock-free hook points (end of a stabilize / fix-finger / predecessor-check
+	// round, after Notify applied) the node's predecessor pointer is sampled and checked against
+	// the previous sample: while the node it named is still a live member, the pointer may only
+	// move to a node strictly between that node and this one (closer), never away
+	MonitorPred bool
+	// Stragglers: at these hook points one hit in StragglerOneIn stalls for StragglerMicro/2 ..
+	// StragglerMicro microseconds — long enough for a whole join or leave to complete while one
+	// step of another operation (a Notify between its ping and its apply, a stabilize round between
+	// reading and storing its list) is held up, as happens when an RPC is slow
+	StragglerPoints map[string]bool
+	StragglerOneIn  int
+	StragglerMicro  int
 }
 
 type Event struct {
@@ -136,6 +148,10 @@ type Lab struct {
 
 	mcMu   sync.Mutex
 	MCalls []MembershipCall
+
+	predMu         sync.Mutex
+	lastPred       map[uint64]predSample
+	PredRegression []PredRegression
 
 	// freeze of the periodic tasks (see FreezePeriodic)
 	frozen    atomic.Bool
@@ -217,11 +233,27 @@ func (l *Lab) hook(point string, node uint64) {
 			}
 		}
 	}
+	if l.opt.MonitorPred {
+		switch point {
+		case "stab.done", "fix.done", "cp.done", "notify.applied":
+			l.samplePred(point, node)
+		}
+	}
 	l.cbMu.RLock()
 	cbs := append(append([]func(string, uint64){}, l.cbs[point]...), l.cbs["*"]...)
 	l.cbMu.RUnlock()
 	for _, cb := range cbs {
 		cb(point, node)
+	}
+	if l.opt.StragglerMicro > 0 && l.opt.StragglerPoints[point] {
+		l.mu.Lock()
+		hit := l.rng.Intn(max(1, l.opt.StragglerOneIn)) == 0
+		d := l.opt.StragglerMicro/2 + l.rng.Intn(l.opt.StragglerMicro/2+1)
+		l.mu.Unlock()
+		if hit {
+			counter(&l.HookHits, "straggler:"+point).Add(1)
+			time.Sleep(time.Duration(d) * time.Microsecond)
+		}
 	}
 	if l.opt.HookDelayMaxMicro > 0 && (l.opt.DelayPoints == nil || l.opt.DelayPoints[point]) {
 		l.mu.Lock()
@@ -1016,4 +1048,80 @@ func (p *netVNode) ListKeys(ctx context.Context, prefix []byte) ([]*protocol.Key
 		return nil, err
 	}
 	return timed(p.lab, func() ([]*protocol.KeyComposite, error) { return p.node().ListKeys(ctx, prefix) })
+}
+
+type predSample struct {
+	id uint64
+	ok bool
+}
+
+// PredRegression: the predecessor pointer of Node moved from Old to New although Old was still a
+// live member and New is not between Old and Node.
+type PredRegression struct {
+	Node, Old, New uint64
+	OldState       string
+	OldHistory     string
+	Point          string
+	T              int64 // microseconds on the lab clock
+}
+
+func (r PredRegression) String() string {
+	return fmt.Sprintf("[%d] at %s node %d's predecessor pointer went from %d (still %s) to %d, which is farther away", r.T, r.Point, r.Node, r.Old, r.OldState, r.New)
+}
+
+func (l *Lab) samplePred(point string, node uint64) {
+	m := l.Member(node)
+	if m == nil || m.Node == nil {
+		return
+	}
+	// the pointer is read inside the monitor's own critical section: samples of one node are then
+	// totally ordered in the order in which they were read (several task loops sample concurrently;
+	// reading outside and storing inside lets an older reading overtake a newer one and look like
+	// a regression)
+	l.predMu.Lock()
+	cur, ok := m.Node.VerifPredecessorID()
+	if l.lastPred == nil {
+		l.lastPred = map[uint64]predSample{}
+	}
+	prev, had := l.lastPred[node]
+	l.lastPred[node] = predSample{cur, ok}
+	l.predMu.Unlock()
+	if !had || !prev.ok || !ok || cur == prev.id || cur == node || prev.id == node {
+		return
+	}
+	old := l.Member(prev.id)
+	if old == nil {
+		return
+	}
+	st := old.State()
+	if st != chord.Active && st != chord.Transferring {
+		return
+	}
+	// "still live" must mean "live all along": a node whose first join attempt failed after its
+	// successor had already adopted it (Joining -> Inactive) and that joined again later is Active
+	// now but was gone in between, and the pointer legitimately moved on meanwhile
+	joins := 0
+	for _, h := range old.Node.VerifStateHistory() {
+		switch h {
+		case chord.Joining:
+			joins++
+		case chord.Leaving, chord.Left:
+			return
+		}
+	}
+	if joins > 1 {
+		return
+	}
+	if chord.Between(prev.id, cur, node, false) {
+		return
+	}
+	l.predMu.Lock()
+	l.PredRegression = append(l.PredRegression, PredRegression{Node: node, Old: prev.id, New: cur, OldState: st.String(), OldHistory: fmt.Sprint(old.Node.VerifStateHistory()), Point: point, T: mono() / 1000})
+	l.predMu.Unlock()
+}
+
+func (l *Lab) PredRegressions() []PredRegression {
+	l.predMu.Lock()
+	defer l.predMu.Unlock()
+	return append([]PredRegression{}, l.PredRegression...)
 }
